@@ -33,7 +33,7 @@ MANIFEST = {
                  'attribute kind x policy x datum under a recording '
                  'security policy; non-interference (two-run) and mediation '
                  '(policy log) oracles',
-    'text': 'A table of 71 access channels (client lookup, with / with '
+    'text': 'A table of 81 access channels (client lookup, with / with '
             'only, attribute / item / _.getattr / _[...] access in '
             'expressions, dtml-in items as objects and 2-tuples, '
             'skip_unauthorized, sequence-var-, first-/last-, the ten '
@@ -112,8 +112,36 @@ def ns_tree_refused(attr, datum, other=None):
     return None, {'root': root, 'URL': 'http://h/x', 'RESPONSE': Response()}
 
 
+def ns_tree_refused_many(attr, datum, other=None):
+    kids = [Node(tpId='k1', tpURL='u1', label=datum, refuse_item=True),
+            Node(tpId='k2', tpURL='u2', label=datum + 'b', refuse_item=True),
+            Node(tpId='k3', tpURL='u3', label='L3'),
+            Node(tpId='k4', tpURL='u4', label='L4'),
+            Node(tpId='k5', tpURL='u5', label='L5')]
+    root = Node(tpId='root', tpURL='r', kids=kids, label='R')
+    return None, {'root': root, 'URL': 'http://h/x', 'RESPONSE': Response()}
+
+
 def ns_client(attr, datum, other=None):
     return Node(**{attr: datum}), {}
+
+
+def ns_seq_refused_many(attr, datum, other=None):
+    return None, {'seq': [Node(pubdata=datum, refuse_item=True),
+                          Node(pubdata=datum + 'b', refuse_item=True),
+                          Node(pubdata='shown'),
+                          Node(pubdata=datum + 'c', refuse_item=True)]}
+
+
+def after_plain_sub(builder):
+    """the same namespace plus a sub-template of a plain (unguarded)
+    template class, rendered before the read"""
+    def build(attr, datum, other=None):
+        from DocumentTemplate import HTML
+        client, ns = builder(attr, datum, other)
+        ns['plainsub'] = HTML('(sub)')
+        return client, ns
+    return build
 
 
 def ns_seq(attr, datum, other=None):
@@ -207,6 +235,27 @@ CHANNELS = [
      ns_tree_refused, 'items'),
     ('item-tree-skip', '<dtml-tree root skip_unauthorized><dtml-var label>,'
      '</dtml-tree>', ns_tree_refused, 'items'),
+    ('item-tree-skip-many', '<dtml-tree root skip_unauthorized>'
+     '<dtml-var label>,</dtml-tree>', ns_tree_refused_many, 'items'),
+    ('item-in-skip-many', '<dtml-in seq skip_unauthorized><dtml-var pubdata>,'
+     '</dtml-in>', ns_seq_refused_many, 'items'),
+    ('item-in-batch-skip-many', '<dtml-in seq size=4 skip_unauthorized>'
+     '<dtml-var pubdata>,</dtml-in>', ns_seq_refused_many, 'items'),
+    ('sub-then-expr', '<dtml-var plainsub><dtml-var "o.ATTR">',
+     after_plain_sub(ns_obj), 'expr'),
+    ('subcall-then-expr', '<dtml-var "plainsub(None, _)"><dtml-var "o.ATTR">',
+     after_plain_sub(ns_obj), 'expr'),
+    ('sub-then-with', '<dtml-var plainsub><dtml-with o><dtml-var ATTR>'
+     '</dtml-with>', after_plain_sub(ns_obj), ''),
+    ('sub-then-in', '<dtml-var plainsub><dtml-in seq><dtml-var ATTR>,'
+     '</dtml-in>', after_plain_sub(ns_seq), ''),
+    ('sub-then-fmt', '<dtml-var plainsub><dtml-var o fmt=ATTR>',
+     after_plain_sub(ns_method), ''),
+    ('sub-then-item-in', '<dtml-var plainsub><dtml-in seq><dtml-var pubdata>,'
+     '</dtml-in>', after_plain_sub(ns_seq_refused), 'items'),
+    ('sub-in-loop-then-expr', '<dtml-in seq><dtml-var plainsub>'
+     '<dtml-var "_[\'sequence-item\'].ATTR"></dtml-in>',
+     after_plain_sub(ns_seq), 'expr'),
     ('expr-attr', '<dtml-var "o.ATTR">', ns_obj, 'expr'),
     ('expr-getattr', '<dtml-var "_.getattr(o, \'ATTR\')">', ns_obj, ''),
     ('expr-getattr-default', '<dtml-var "_.getattr(o, \'ATTR\', \'dflt\')">',
@@ -316,7 +365,7 @@ def site(cid):
         return 'TreeTag.extract_id/try_call_attr'
     if cid.startswith('tree-branches'):
         return 'TreeTag.tpRenderTABLE[branches]'
-    if cid.startswith('fmt-method'):
+    if cid.startswith('fmt-method') or cid == 'sub-then-fmt':
         return 'DT_Var.Var.render[fmt]'
     return cid
 
